@@ -115,14 +115,45 @@ def oracle_sets(entries):
     return out
 
 
-def cause_tag(rec):
-    """Front-end conditions already listed as findings of other properties that
-    change what a name-level sequence means; they are kept apart in the signature."""
+def cause_tag(rec, ds=None):
+    """Front-end conditions (findings of other properties, or readings of the
+    documentation that are the requester's to decide) that change what a valid
+    name-level sequence is; they are kept apart in the signature, not hidden."""
     blk = rec["block"]
     strs = [f.name for f in blk.design if isinstance(f.name, str)]
     if len(set(strs)) != len(strs):
         return ":dupnames"      # Merge of blocks that desugared a weighted factor differently (C23 / C14)
+    if ds is not None:
+        # where each crossing starts: code (preamble_size per crossing, times sustain) vs documentation-side semantics
+        try:
+            code = [blk.preamble_size(c) * blk.crossing_sustain_count(c) for c in blk.crossings]
+            doc = [c[1] for c in ds.sem[2]]
+            if code != doc:
+                from sweetpea._internal.cross_block import AlignmentMode
+                if blk.alignment == AlignmentMode.POST_PREAMBLE and blk._alignment_preamble > max(list(blk.preamble_sizes) + [0]):
+                    # an uncrossed complex factor delays every crossing (code) but not in the documentation
+                    return ":alignment-preamble"
+                return ":crossing-start-differs"
+            # chunk length of each crossing: code (crossing_size x crossing_weight) vs documentation-side semantics
+            code_chunk = [blk.crossing_sizes[i] * blk.crossing_weight(c) for i, c in enumerate(blk.crossings)]
+            doc_chunk = [c[2] for c in ds.sem[2]]
+            if code_chunk != doc_chunk:
+                # e.g. a crossing of mutually dependent derived factors: the code keeps (and then cannot fill)
+                # combinations that the documentation-side semantics drops as impossible
+                return ":crossing-size-differs"
+        except Exception:  # noqa
+            pass
     return ""
+
+
+def signature(kind):
+    """Stable signatures (matched against known_findings.json)."""
+    if kind.startswith("constructor-raises:KeyError@__count_solutions"):
+        # crossed within-trial derived factor whose window contains an uncrossed derived factor
+        return "random:keyerror:derived-source"
+    if kind.endswith(":alignment-preamble"):
+        return "random:alignment-preamble"
+    return "c05:" + kind
 
 
 def judge(program, rec, oracle):
@@ -130,7 +161,7 @@ def judge(program, rec, oracle):
     blk, en = rec["block"], rec["enumerator"]
     names = ir.user_factor_names(program)
     exp = oracle[2]
-    tag = cause_tag(rec)
+    tag = cause_tag(rec, oracle[1])
     got = collections.Counter()
     first_key = {}
     bad = []
@@ -265,13 +296,14 @@ def run(ctx, res):
     res.extra["features_exercised"] = dict(feat)
     seen = set()
     for kind, what, key, i in found:
-        if kind in seen:
+        if signature(kind) in seen:
             continue
-        seen.add(kind)
-        res.violations.append(Violation("c05:" + kind, "%s [%s]" % (what, progs[i][0]),
+        seen.add(signature(kind))
+        res.violations.append(Violation(signature(kind), "%s [%s]" % (what, progs[i][0]),
                                         {"program": recs[i]["program"], "key": random_corr._tolist(key) if key is not None else None,
                                          "kind": kind}))
-    if mism and not found:
+    if mism:
+        # (run.py prints a broken tie only when no unlisted concrete failing input explains it)
         name, r = mism[0]
         res.violations.append(Violation(
             "corr:L8", "model Random/Enum.v and the real UCSolutionEnumerator disagree on %d programs, e.g. %s: %s" % (
@@ -299,4 +331,4 @@ def replay(ctx, data):
     if o[0] != "ok":
         return False
     bad, _ = judge(data["program"], rec, o)
-    return any(k == kind for k, _, _ in bad)
+    return any(signature(k) == signature(kind) for k, _, _ in bad)
